@@ -9,7 +9,7 @@ import (
 	"sync"
 	"time"
 
-	"verifharness/internal/h"
+	"verifharness/pkg/h"
 
 	"github.com/dunglas/mercure"
 )
